@@ -44,6 +44,9 @@ MOLS = [
     ("H4_cation", 0.9, ["vqe"], True, [[0, 3], [0, 3]]),
 ]
 VQE_ANSATZ = ["UCCSD", "UCCSD", "HEA", "UpCCGSD"]
+# another molecule with the same number of active spin-orbitals but another electron count or spin: what a second user of
+# the same process works on (seeded C13-G: state shared between solver objects through the module)
+NEIGHBOUR = {"H2": ("H2_triplet", 0.8), "H2_triplet": ("H2", 0.8), "H4_f03": ("H2_triplet", 0.8), "H3_doublet": ("H4_f0", 0.9), "H4_f0": ("H3_doublet", 0.9)}
 TOL = {"fci": 1e-8, "mp2": 1e-7, "ccsd": 2e-6, "vqe": 1e-6}
 
 
@@ -89,6 +92,8 @@ class RdmWorld(World):
     # -- generation ---------------------------------------------------------------------------------------------------
     def gen(self, step):
         rng, cfg = self.ctx.ops, self.config
+        if "vqe" in cfg["kinds"] and not cfg.get("uhf") and cfg["mol"] in NEIGHBOUR and rng.random() < (0.3 if step == 0 else 0.04):
+            return {"k": "neighbour", "seed": rng.randrange(10 ** 9)}
         if not self.solvers or (len(self.solvers) < 3 and rng.random() < 0.2):
             return {"k": "new", "kind": rng.choice(cfg["kinds"])}
         i = rng.randrange(8)
@@ -147,6 +152,31 @@ class RdmWorld(World):
         else:
             s = {"fci": FCISolver, "ccsd": CCSDSolver, "mp2": MP2Solver}[kind](mol)
         return {"kind": kind, "obj": s, "e": None, "last": None, "theta": None, "have_freqs": False}
+
+    def _neighbour(self, op):
+        """Somebody else in the same process: a VQESolver with the same options on another molecule with the same number of
+        active spin-orbitals asks for its matrices. Its answer is not judged here (that molecule has its own runs); what is
+        judged is that the solvers of this run are not affected, before or after."""
+        from tangelo.algorithms.variational import VQESolver, BuiltInAnsatze
+        cfg, ctx = self.config, self.ctx
+        if cfg["mol"] not in NEIGHBOUR or cfg.get("uhf"):
+            ctx.outcome("neighbour", "skipped")
+            return []
+        name, d = NEIGHBOUR[cfg["mol"]]
+        opts = {"molecule": molecule(name, d), "ansatz": BuiltInAnsatze.UCCSD, "qubit_mapping": cfg["mapping"], "up_then_down": cfg["utd"],
+                "backend_options": {"target": "cirq", "n_shots": None}}
+        try:
+            s = VQESolver(opts)
+            quiet(s.build)
+            rng = random.Random(op.get("seed", 0))
+            quiet(s.get_rdm, [round(rng.uniform(-1, 1), 4) for _ in range(s.ansatz.n_var_params)])
+        except Exception as ex:
+            ctx.outcome("neighbour", "config-refused")
+            ctx.ev("config-refused", "neighbour", repr(ex)[:100])
+            return []
+        ctx.outcome("neighbour", "ok")
+        ctx.probe("C13.other_solver_in_same_process")
+        return []
 
     def _theta(self, op, n, prev):
         rng = random.Random(op.get("seed", 0))
@@ -223,6 +253,8 @@ class RdmWorld(World):
             self.solvers = self.solvers[-3:]
             ctx.outcome(k, "ok:" + kind)
             return V
+        if k == "neighbour":
+            return self._neighbour(op)
         if not self.solvers:
             ctx.outcome(k, "skipped")
             return V
